@@ -325,7 +325,12 @@ func (f *FieldCopyToGenerator) genListOrMap() *j.Statement {
 				}
 
 				// for k, a := range obj.List
-				g.For(j.List(j.Id("k"), j.Id("a"))).Op(":=").Range().Id(fieldName).BlockFunc(func(g *j.Group) {
+				loopVars := j.List(j.Id("k"), j.Id("a"))
+				if (f.Kind == ObjectListKind || f.Kind == ObjectMapKind) && f.getValueField().Message.IsEmpty && !f.IsNullable {
+					// for k := range obj.List - elements of a message without fields are never read
+					loopVars = j.List(j.Id("k"))
+				}
+				g.For(loopVars).Op(":=").Range().Id(fieldName).BlockFunc(func(g *j.Group) {
 					if (f.Kind == PrimitiveListKind) || (f.Kind == PrimitiveMapKind) {
 						f.genPrimitiveBody("a", g)
 					} else {
